@@ -799,7 +799,16 @@ def r5_mode_agreement(w):
     def cover_next(K, C, hash_prev):
         """contexts the cover search hands to a child of K"""
         if passes_ctx:
-            return cov.get((K, C, hash_prev))
+            v = cov.get((K, C, hash_prev))
+            if v is None:
+                return None
+            # a flag the evaluation could not determine (stale state carried over from an earlier sibling) can be either
+            out = set()
+            for (m_, s_, a_) in v:
+                for s2 in ((False, True) if s_ is None else (s_,)):
+                    for a2 in ((False, True) if a_ is None else (a_,)):
+                        out.add((m_, s2, a2))
+            return out
         v = cov.get((K, (C[0], None, None) if not cover_full else C, hash_prev))
         if v is None:
             return None
